@@ -32,6 +32,7 @@ bool load_editor(const std::string &lib, Editor &ed, std::string &err)
 	SYM(ex_lbuf, "ex_lbuf"); SYM(lbuf_len, "lbuf_len"); SYM(lbuf_get, "lbuf_get"); SYM(lbuf_jump, "lbuf_jump");
 	SYM(ex_path, "ex_path"); SYM(reg_get, "reg_get");
 	SYM(term_rows, "term_rows"); SYM(term_cols, "term_cols");
+	SYM(ex_kwd, "ex_kwd");
 	SYM(ren_pos, "ren_pos"); SYM(ren_cursor, "ren_cursor"); SYM(uc_slen, "uc_slen");
 #undef SYM
 	*(void **) &ed.depth_cuts = dlsym(ed.h, "nv_verif_depth_cuts");
